@@ -3,13 +3,35 @@ package tree
 import (
 	"fmt"
 	"os"
+
+	"github.com/anyproto/any-sync/commonspace/object/tree/objecttree"
 )
 
 // checkBatches states C09 directly on the batches the real loader produced for a requester whose stored
 // set is reqSet and who announced theirHeads.
 func (w *world) checkBatches(resp *replica, reqSet map[string]bool, theirHeads, theirPath []string, limit int, batches []loaderBatch, what string) {
+	w.checkBatchesAt(resp, w.respNow(resp), reqSet, theirHeads, theirPath, limit, batches, what)
+}
+
+// respState is what the responder held when the loader was created (the answer is judged against that state: the
+// real stream handler builds the loader under the tree lock and streams the batches after releasing it).
+type respState struct {
+	stored []string
+	full   []objecttree.StorageChange
+	heads  []string
+	chain  []string
+	path   []string
+}
+
+func (w *world) respNow(resp *replica) respState {
+	st := w.stored(resp)
+	p, _ := resp.tree.SnapshotPath()
+	return respState{stored: storedIds(st), full: st, heads: sortedCopy(resp.tree.Heads()), chain: w.snapChain(resp.tree.Root().Id), path: append([]string{}, p...)}
+}
+
+func (w *world) checkBatchesAt(resp *replica, at respState, reqSet map[string]bool, theirHeads, theirPath []string, limit int, batches []loaderBatch, what string) {
 	ctxt := fmt.Sprintf("%s: rep%d answering heads=%s path=%s limit=%d", what, resp.idx, join(theirHeads), join(theirPath), limit)
-	respStored := storedIds(w.stored(resp))
+	respStored := at.stored
 	respSet := idSet(respStored)
 	sentAt := map[string]int{}
 	n := 0
@@ -106,14 +128,14 @@ func (w *world) checkBatches(resp *replica, reqSet map[string]bool, theirHeads, 
 	}
 	// a single-batch answer announces exactly the responder's heads
 	if len(batches) == 1 {
-		if !eqStr(sortedCopy(batches[0].heads), sortedCopy(resp.tree.Heads())) {
-			w.violate("C09", "batches.heads.final", fmt.Sprintf("%s: single batch announces %s, responder heads are %s", ctxt, join(sortedCopy(batches[0].heads)), join(sortedCopy(resp.tree.Heads()))))
+		if !eqStr(sortedCopy(batches[0].heads), at.heads) {
+			w.violate("C09", "batches.heads.final", fmt.Sprintf("%s: single batch announces %s, responder heads are %s", ctxt, join(sortedCopy(batches[0].heads)), join(at.heads)))
 		}
 	}
 	// the snapshot path sent along is the responder's: its root, that root's snapshot, … down to the tree root
 	// (computed by the harness from the stored snapshot ids, not by asking the tree again)
 	if len(batches) > 0 {
-		p := w.snapChain(resp.tree.Root().Id)
+		p := at.chain
 		for bi, b := range batches {
 			if !eqStr(b.path, p) {
 				w.violate("C09", "batches.path", fmt.Sprintf("%s: batch %d carries path %s, responder path is %s", ctxt, bi+1, join(b.path), join(p)))
